@@ -215,9 +215,35 @@ def handles(*names):
     return deco
 
 
+_NP_BIN = {
+    "add": operator.add, "subtract": operator.sub, "multiply": operator.mul, "true_divide": operator.truediv, "divide": operator.truediv,
+    "less": operator.lt, "less_equal": operator.le, "greater": operator.gt, "greater_equal": operator.ge,
+    "power": operator.pow, "minimum": None, "maximum": None,
+}
+_NP_UN = {"log": "log", "exp": "exp", "sqrt": "sqrt", "negative": "__neg__", "absolute": "__abs__", "tanh": "tanh", "log1p": "log1p", "sign": "sign"}
+
+
 class Sym:
-    __array_ufunc__ = None
     __array_priority__ = 10000
+
+    def __array_ufunc__(self, ufunc, method, *inputs, **kwargs):
+        """numpy scalars / functions applied to a symbolic tensor (np.float64(2) * sym, np.log(sym))."""
+        name = ufunc.__name__
+        if method != "__call__" or kwargs.get("out") is not None:
+            raise NotModelled("numpy ufunc %s.%s on a symbolic tensor" % (name, method))
+        if name in _NP_UN and len(inputs) == 1:
+            return getattr(lift(inputs[0]), _NP_UN[name])()
+        if name in _NP_BIN and len(inputs) == 2:
+            a, b = inputs
+            if name == "minimum":
+                return minimum(a, b)
+            if name == "maximum":
+                return maximum(a, b)
+            if name == "power":
+                return lift(a) ** (b if not isinstance(b, Sym) else b)
+            return _NP_BIN[name](lift(a), lift(b))
+        raise NotModelled("numpy ufunc %s on a symbolic tensor" % name)
+
     is_meta = False
     is_sparse = False
     is_quantized = False
